@@ -44,7 +44,7 @@ Say(kind, prop, i, what) == PrintT(ToJson(<<kind, prop, i, what>>))
 
 IsOk(r) == r.ret = "ok"
 \* operations that go through the compaction worker (the hook reports the choice made)
-CompactOps == {"compact", "major", "leveled", "movedown", "pulldown"}
+CompactOps == {"compact", "major", "leveled", "movedown", "pulldown", "fifo"}
 \* read-only lines (scans) do not repeat the state: the state of line i is the one
 \* recorded by the closest earlier line that is not read-only (at most 12 lines back)
 StIdx(i) == Max({j \in (IF i > 12 THEN i - 12 ELSE 1)..i : ~Rec[j].ro})
@@ -58,6 +58,26 @@ WriteEntries(r) ==
     {[k |-> r.op.items[j].k, s |-> r.info.s, t |-> r.op.items[j].t, v |-> r.op.items[j].v]
         : j \in 1..Len(r.op.items)}
 
+\* the filter function of a merge step (rule table of the behaviour over the merge input)
+BigOf(cfg) == IF cfg.sep.on THEN cfg.sep.big ELSE {}
+StepFilter(i, cfg) ==
+    LET r == Rec[i] IN
+    FilterFn(cfg.rules, BigOf(cfg), MergeInput(Pre(i), {r.info.choice[j] : j \in 4..Len(r.info.choice)}))
+
+\* C17: effects of the verdicts on the entries the real filter object was shown
+FilterEffects(i, cfg) ==
+    LET r == Rec[i] IN
+    IF cfg.rules = <<>> \/ "choice" \notin DOMAIN r.info \/ r.info.choice[1] # 1
+       \/ "shown" \notin DOMAIN r.info THEN {}
+    ELSE LET pre   == Pre(i)
+             input == MergeInput(pre, {r.info.choice[j] : j \in 4..Len(r.info.choice)})
+             seen  == {e \in Range(input) : ~IsTomb(e) /\ <<e.k, e.v>> \in Range(r.info.shown)}
+             vd(e) == RuleVerdict(cfg.rules, BigOf(cfg), e.k, e.v)
+         IN {[k |-> e.k, s |-> e.s, c |-> pre.seq,
+              t |-> IF vd(e).kind = "drop" THEN "D" ELSE IF vd(e).t = "I" THEN "V" ELSE vd(e).t,
+              v |-> IF vd(e).kind = "drop" THEN NoVal ELSE vd(e).v]
+                : e \in {x \in seen : vd(x).kind # "keep"}}
+
 \* keys hit by a listed known finding in step i (KnownFindings.tla)
 StepHazard(i) ==
     LET r == Rec[i] IN
@@ -66,14 +86,20 @@ StepHazard(i) ==
     THEN MergeHazard(Pre(i), {r.info.choice[j] : j \in 4..Len(r.info.choice)}, r.op.w)
     ELSE {}
 
-GhostStep(a, i) ==
+GhostStep(a, i, cfg) ==
     LET r == Rec[i] IN
     IF ~IsOk(r) THEN a ELSE
     CASE r.op.op = "reset"  -> AInit
       [] r.op.op = "write"  -> AWrite(a, WriteEntries(r))
       [] r.op.op = "rotate" -> ARotate(a)
       [] r.op.op = "flush"  -> AHazard(AFlush(a), StepHazard(i))
-      [] r.op.op \in CompactOps -> AHazard(a, StepHazard(i))
+      [] r.op.op = "fifo" ->
+            \* whatever FIFO dropped is gone for later snapshots (like drop_range)
+            IF "choice" \in DOMAIN r.info /\ r.info.choice[1] = 3
+            THEN ADropRange(a, UNION {TKeys(Pre(i).tbl[t]) : t \in {r.info.choice[j] : j \in 4..Len(r.info.choice)}},
+                            r.info.s0)
+            ELSE a
+      [] r.op.op \in CompactOps -> AFilter(AHazard(a, StepHazard(i)), FilterEffects(i, cfg))
       [] r.op.op = "reopen" -> AReopen(a)
       [] r.op.op = "clear"  -> AClear(a, r.info.s0)
       [] r.op.op = "droprange" ->
@@ -106,14 +132,20 @@ MergeExpected(i, w) ==
     IN OpMergeWith(pre, ChoiceIds(r), ChoiceDest(r), pieces, w)
 
 \* the recorded output tables are a legal cut of what the merge stream emits
-MergeOutputOk(i, w) ==
+MergeOutputOk(i, w, cfg) ==
     LET r == Rec[i] pre == Pre(i) post == Post(i)
         new == NewTables(i)
-        out == MergeOutput(pre, ChoiceIds(r), ChoiceDest(r), w, "none").out
+        out == MergeOutput(pre, ChoiceIds(r), ChoiceDest(r), w, StepFilter(i, cfg)).out
     IN /\ Concat([j \in 1..Len(new) |-> post.tbl[new[j]].e]) = out
        /\ \A j \in 1..Len(new) : post.tbl[new[j]].e # <<>> /\ post.tbl[new[j]].g = 0
        /\ \A j \in 1..Len(new) - 1 :
              TMaxKey(post.tbl[new[j]]) < TMinKey(post.tbl[new[j+1]])
+
+\* what the real filter was shown equals what the transcribed stream shows its filter
+ShownOk(i, cfg) ==
+    LET r == Rec[i]
+        m == MergeOutput(Pre(i), ChoiceIds(r), ChoiceDest(r), r.op.w, StepFilter(i, cfg)).shown
+    IN [j \in 1..Len(m) |-> <<m[j].k, m[j].v>>] = r.info.shown
 
 CompactExpected(i) ==
     LET r == Rec[i] pre == Pre(i) w == r.op.w IN
@@ -154,13 +186,13 @@ ChoiceLegal(i) ==
 (***************************************************************************)
 ObsGetOk(r, a) ==
     \A j \in 1..Len(r.obs.get) :
-        \A k \in KeysT : Defined(a, k, r.obs.get[j].S)
-                              => r.obs.get[j].v[k] = Oracle(a, k, r.obs.get[j].S)
+        LET S == r.obs.get[j].S L == LiveAt(a, S) IN
+        \A k \in KeysT : DefinedL(a, L, k, S) => r.obs.get[j].v[k] = OracleL(L, k, S)
 
 ObsScanOk(r, a) ==
     \A j \in 1..Len(r.obs.scan) :
-        LET S == r.obs.scan[j].S IN
-        OnlyDefined(r.obs.scan[j].r, a, S) = OnlyDefined(OracleScan(a, S, FullBounds), a, S)
+        LET S == r.obs.scan[j].S L == LiveAt(a, S) IN
+        OnlyDefinedL(r.obs.scan[j].r, a, L, S) = OnlyDefinedL(ScanOf(L, S, FullBounds), a, L, S)
 
 \* consumption order of a double-ended scan: pat is a sequence of "F" / "B", applied cyclically
 RECURSIVE Consume(_, _, _)
@@ -200,6 +232,23 @@ ScanExtrasOk(r, a) ==
             /\ x.empty = (o = <<>>)
             /\ x.first = (IF o = <<>> THEN 0 ELSE o[1][1])
             /\ x.last = (IF o = <<>> THEN 0 ELSE o[Len(o)][1])
+
+\* C19: what a FIFO compaction dropped.  L0 tables of the previous recorded state with
+\* their creation time and size; D = the dropped set reported by the worker hook
+FifoOk(i) ==
+    LET r    == Rec[i]
+        prs  == Rec[StIdx(i - 1)].st
+        l0   == UNION {Range(run) : run \in Range(prs.hist[Len(prs.hist)].lv[1])}
+        cr(t) == ById(prs.tbls, t).meta.created
+        D    == IF "choice" \in DOMAIN r.info /\ r.info.choice[1] = 3
+                THEN {r.info.choice[j] : j \in 4..Len(r.info.choice)} ELSE {}
+        hasTtl == "ttl" \in DOMAIN r.op /\ r.op.ttl > 0
+        expired(t) == hasTtl /\ r.info.now >= r.op.ttl /\ cr(t) <= r.info.now - r.op.ttl
+    IN /\ D \subseteq l0
+       \* no removed table is newer than a retained one unless it exceeded the TTL
+       /\ \A d \in D : \A x \in l0 \ D : cr(d) <= cr(x) \/ expired(d)
+       \* nothing is removed while the tree is within its size limit and TTL
+       /\ (r.info.size <= r.info.limit /\ \A t \in l0 : ~expired(t)) => D = {}
 
 \* the model's read algorithm on the recorded structure agrees with the real read
 ModelReadAgrees(r) ==
@@ -319,6 +368,7 @@ CheckLine(i, a, cfg) ==
         /\ (ScanLineOk(r, a) \/ Say("VIOL", "SCANX", i, <<r.op, r.info, ScanExpected(r, a)>>))
     ELSE
     LET st == Post(i) IN
+    /\ (r.op.op # "fifo" \/ FifoOk(i) \/ Say("VIOL", "FIFO", i, r.info))
     /\ (ObsGetOk(r, a)          \/ Say("VIOL", "READ", i, r.obs.get))
     /\ (KnownHit(r, a) = {}     \/ Say("KNOWN", "C13-weak-shadow", i, KnownHit(r, a)))
     /\ (ObsScanOk(r, a)         \/ Say("VIOL", "SCAN", i, r.obs.scan))
@@ -333,20 +383,22 @@ CheckLine(i, a, cfg) ==
     /\ (ModelReadAgrees(r)      \/ Say("DRIFT", "read", i, r.obs.get))
     /\ (ChoiceLegal(i)          \/ Say("ILLEGAL", "choice", i, r.info))
     /\ (r.op.op \notin CompactOps \/ "choice" \notin DOMAIN r.info
-          \/ ChoiceKind(r) # 1 \/ MergeOutputOk(i, r.op.w)
+          \/ ChoiceKind(r) # 1 \/ MergeOutputOk(i, r.op.w, cfg)
           \/ Say("DRIFT", "mergeout", i, r.info))
     /\ (Expected(i, cfg) = st   \/ Say("DRIFT", "state", i, DiffFields(Expected(i, cfg), st)))
     /\ (~cfg.sep.on \/ BlobChecks(i, r))
+    /\ (cfg.rules = <<>> \/ "shown" \notin DOMAIN r.info \/ "choice" \notin DOMAIN r.info
+          \/ r.info.choice[1] # 1 \/ ShownOk(i, cfg) \/ Say("DRIFT", "shown", i, r.info.shown))
 
 -----------------------------------------------------------------------------
-CfgOf(r) == [sep |-> [on |-> r.op.blob, big |-> Range(r.op.big)]]
-Init == l = 0 /\ A = AInit /\ C = [sep |-> NoSep]
+CfgOf(r) == [sep |-> [on |-> r.op.blob, big |-> Range(r.op.big)], rules |-> r.op.filter]
+Init == l = 0 /\ A = AInit /\ C = [sep |-> NoSep, rules |-> <<>>]
 
 Next ==
     /\ l < Len(Rec)
     /\ l' = l + 1
-    /\ A' = GhostStep(A, l + 1)
     /\ C' = IF Rec[l + 1].op.op = "reset" THEN CfgOf(Rec[l + 1]) ELSE C
+    /\ A' = GhostStep(A, l + 1, C')
     /\ CheckLine(l + 1, A', C')
 
 Spec == Init /\ [][Next]_<<l, A, C>>
